@@ -27,7 +27,7 @@ META = {
     "exhaustive_tiers": {"quick": {"catalogs n<=4 x 0..2 events x placeholder choices x header x 3 time spellings": True},
                          "thorough": {"catalogs n<=5 x 0..2 events x placeholder choices x header x 3 time spellings": True}},
 }
-META["added"] = 'Added: writer-model witness (sys.monitoring branch pairs), zero-valued fields, decreasing ids where the offending row is a placeholder row (with / without header). fractions with trailing zeros left out, LF / CRLF line ends and missing final terminator. exponent-notation fields incl. the first data row; the same file path re-used by every case. blank event ids.'
+META["added"] = 'Added: files with 300 catalogs (ids beyond 256) in the quick tier. writer-model witness (sys.monitoring branch pairs), zero-valued fields, decreasing ids where the offending row is a placeholder row (with / without header). fractions with trailing zeros left out, LF / CRLF line ends and missing final terminator. exponent-notation fields incl. the first data row; the same file path re-used by every case. blank event ids.'
 MANIFEST = {
     "technique": "boundary recorder on the three loaders, exactly-once/ordering stream checker against the writer model; sys.monitoring LINE witness on the decoder generator recording branch transitions; exhaustive small encodings + random long files + rejection cases",
     "level_text": "All encodings of n<=4 (quick) / n<=5 (thorough) catalogs with 0..2 events, every placeholder/omitted choice, with/without header and three time spellings are enumerated completely and decoded through all three loaders; the yielded stream must be ids 0..n-1 in order with bit-identical fields; random files with long gaps and hostile ids; files with decreasing ids must be rejected. The witness lists decoder branch pairs actually executed.",
@@ -299,7 +299,7 @@ def run(ctx):
     nr = (75000 if thorough else 240) // ctx.nshards
     for j in range(nr):
         r = ctx.rng("c12r", j)
-        n = int(r.choice([1, 2, 5, 30, 200, 600] if thorough else [1, 2, 5, 30, 120]))
+        n = int(r.choice([1, 2, 5, 30, 200, 600] if thorough else [1, 2, 5, 30, 120, 300]))       # ids beyond 256 in both tiers
         cats = []
         gapmode = j % 3
         for i in range(n):
